@@ -76,7 +76,7 @@ func resolverCombo(i int) (protodesc.Resolver, protoregistry.MessageTypeResolver
 func runC16(ctx *Ctx) {
 	types := model.Types()
 	per := func(q, th int) int { return ctx.N(q, th)/ctx.NShards + 1 }
-	ctx.CheckRapid("pack", per(12000, 300000), func(rt *rapid.T) *Case {
+	ctx.CheckRapid("pack", per(100000, 800000), func(rt *rapid.T) *Case {
 		c := &Case{Sub: "pack", Args: map[string]string{}}
 		c.Args["opts"] = rapid.SampledFrom([]string{"zero", "deterministic", "allowpartial"}).Draw(rt, "opts")
 		if rapid.IntRange(0, 5).Draw(rt, "wk") == 0 {
@@ -93,7 +93,7 @@ func runC16(ctx *Ctx) {
 		return c
 	}, func(c *Case) error { return checkC16(ctx, c) })
 
-	ctx.CheckRapid("hostile", per(30000, 600000), func(rt *rapid.T) *Case {
+	ctx.CheckRapid("hostile", per(250000, 2000000), func(rt *rapid.T) *Case {
 		c := &Case{Sub: "hostile", Args: map[string]string{}}
 		var url string
 		switch rapid.IntRange(0, 3).Draw(rt, "urlclass") {
@@ -128,7 +128,7 @@ func runC16(ctx *Ctx) {
 		return c
 	}, func(c *Case) error { return checkC16(ctx, c) })
 
-	ctx.CheckRapid("failpack", per(2000, 20000), func(rt *rapid.T) *Case {
+	ctx.CheckRapid("failpack", per(5000, 40000), func(rt *rapid.T) *Case {
 		return &Case{Sub: "failpack", Args: map[string]string{
 			"src":  fmt.Sprint(rapid.IntRange(0, 4).Draw(rt, "src")),
 			"opts": rapid.SampledFrom([]string{"zero", "deterministic"}).Draw(rt, "opts"),
